@@ -3,7 +3,7 @@ days ago; without DAYS everything incl. payloads without info."""
 import datetime
 import os
 
-from .. import gen, putcheck, run, snap, spec, trashgen, trashworld, world
+from .. import gen, putcheck, run, sched, snap, spec, trashgen, trashworld, world
 
 ID = 'C10'
 
@@ -39,7 +39,102 @@ def rand_now(rng):
     return trashgen.rand_date(rng, 1990, 2100)
 
 
+def gen_race_case(rng, index, tier):
+    """trash-empty DAYS racing with a trash-put of a fresh file into the
+    same trash dir: every interleaving in which the put runs atomically at
+    some point of the purge (and random finer ones)"""
+    now = '2024-06-30T12:00:00'
+    dates = ['2024-01-01T00:00:00', '2024-06-30T11:00:00', '2023-05-05T05:05:05']
+    L, trashes, entries = trashworld.make(
+        rng, index, n_entries=rng.randint(1, 3), dates=dates, volumes=[],
+        home_own=False, xdg='unset', names=['old a', 'recent b', 'old c'],
+        kinds=['file', 'tree'], trash_volumes_env=False)
+    for e in entries:
+        e['dkind'] = 'normal'
+        e['text_date'] = e['date']
+    t = trashes[0]
+    if rng.random() < 0.5:
+        L.add({'p': t['rel'] + '/files/orphan-%d' % index, 't': 'f', 'c': 'orphan'})
+    L.add({'p': L.home + '/fresh', 't': 'd'})
+    L.add(gen.entry_nodes(rng, L.home + '/fresh/fresh.txt', 'file', 'fresh%d' % index))
+    case = L.desc()
+    case['env'] = dict(case['env'], TRASH_DATE=now)
+    case['kind'] = 'race'
+    case['now'] = now
+    case['days'] = rng.choice([1, 30])
+    case['entries'] = entries
+    case['trashes'] = [x['rel'] for x in trashes]
+    case['tdir'] = t['rel']
+    case['fresh'] = L.home + '/fresh/fresh.txt'
+    case['seed'] = rng.getrandbits(30)
+    case['max_sched'] = 60 if tier == 'quick' else 400
+    return case
+
+
+def run_race(case):
+    import random
+    out = {'violations': [], 'obs': {}, 'features': ['race']}
+    obs = out['obs']
+    now = datetime.datetime.strptime(case['now'], FMT)
+    ex = sched.Explorer(1)
+    rng = random.Random(case['seed'])
+    n = 0
+    seen = set()
+    while n < case['max_sched']:
+        pol = ex if not ex.finished else sched.RandomPolicy(rng, 0.5)
+        if pol is ex:
+            ex.start_run()
+        with world.World(case) as w:
+            s0 = w.snapshot()
+            tdir = w.abs(case['tdir'])
+            actors = [
+                {'cmd': 'empty', 'args': ['--trash-dir', tdir, str(case['days'])],
+                 'cwd': w.cwd()},
+                {'cmd': 'put', 'args': ['--trash-dir', tdir, '--', w.abs(case['fresh'])],
+                 'cwd': w.cwd(), 'plan': {'put_clock': '2024-06-30T11:59:59'}}]
+            results, trace, err = sched.run_schedule(w, actors, tdir, pol.choose)
+            s1 = w.snapshot()
+        n += 1
+        obs['race_schedules'] = obs.get('race_schedules', 0) + 1
+        if err:
+            out['verdict'] = 'inconclusive'
+            out['why'] = err
+            return out
+        key = tuple(a for a, _ in trace)
+        if key not in seen:
+            seen.add(key)
+            obs['race_interleavings'] = obs.get('race_interleavings', 0) + 1
+        A = putcheck.analyze(s0, s1, [case['fresh']])
+        o = A.outcomes[0]
+        bad = None
+        if results[1].exit != 0 or o['state'] != 'TRASHED':
+            bad = 'fresh-entry-not-trashed-whole/%s' % o['state']
+        for e in case['entries']:
+            st = trashworld.entry_state(s0, s1, e)
+            exp = expected_removed(e, now, case['days'])
+            if e['trash'] != case['tdir']:
+                exp = False          # another trash dir: not operated on
+            if (exp and st != 'gone') or (exp is False and st != 'intact'):
+                bad = bad or 'entry-%s-though-%s' % (st, 'old' if exp else 'young')
+        if bad and len(out['violations']) < 2:
+            out['violations'].append({
+                'mechanism': 'race-with-put:' + bad,
+                'detail': {'trace': ['%d:%s' % t for t in trace][:60],
+                           'exits': [r.exit for r in results],
+                           'stderr': [r.errtext()[-200:] for r in results]}})
+        if pol is ex and not ex.next():
+            obs['race_exhaustive_bound1'] = 1
+        if out['violations']:
+            break
+    out['nontrivial'] = True
+    out['sample_obs'] = {'schedules': n, 'distinct': len(seen)}
+    out['verdict'] = 'violation' if out['violations'] else 'ok'
+    return out
+
+
 def gen_case(rng, index, tier):
+    if index % 150 == 7:
+        return gen_race_case(rng, index, tier)
     now = rand_now(rng)
     nowd = datetime.datetime.strptime(now, FMT)
     nodays = rng.random() < 0.12
@@ -158,6 +253,8 @@ def expected_removed(e, now, days):
 
 
 def run_case(case):
+    if case.get('kind') == 'race':
+        return run_race(case)
     out = {'violations': [], 'obs': {}, 'features': []}
     obs = out['obs']
     now = datetime.datetime.strptime(case['now'], FMT)
